@@ -6,13 +6,13 @@
 // VF_CONSUMERS=2: a second consumer thread issues the second request / fetch.
 #include <dispenso/async_request.h>
 #include "vf.h"
-#include "race_probe.h"
+#include "probe.h"
 
 #ifndef VF_CONSUMERS
 #define VF_CONSUMERS 1
 #endif
 
-static dispenso::AsyncRequest<RaceProbe> A;
+static dispenso::AsyncRequest<Probe> A;
 
 static void producer(void*) {
   A.tryEmplaceUpdate(1);
@@ -24,6 +24,11 @@ static void consumer2(void*) {
 }
 
 extern "C" void vf_main() {
+  {
+    VfAtomic noPreempt;
+    warm_atomic(A.state_);
+    warm_probe(A.obj_.buf_);
+  }
   A.requestUpdate();
   vf_spawn(producer, nullptr);
 #if VF_CONSUMERS > 1
